@@ -68,7 +68,7 @@ package pkce
 //@   let method = old(pkce_method[sig])
 //@   let canhandle = c.CanHandleTokenEndpointRequest(ctx, request)
 //@   requires c != nil && request != nil && !stored[request]
-//@   modifies pkce_exists, faults, hash_data, is_hash, tx_escaped
+//@   modifies pkce_exists, faults, hash_data, is_hash, hash_alg, tx_escaped
 //@   ensures [C03.verifier-required] canhandle && had && challenge != "" && err == nil ==> wellformed(verifier) && transform(method, verifier) == challenge
 //@   ensures [C03.plain-opt-in] canhandle && had && challenge != "" && err == nil && method != "S256" ==> c.Config.GetEnablePKCEPlainChallengeMethod(ctx)
 //@   ensures [C03.no-session-no-verifier] canhandle && !had && err == nil ==> verifier == "" && !c.Config.GetEnforcePKCE(ctx) && !(c.Config.GetEnforcePKCEForPublicClients(ctx) && old(request.GetClient()).IsPublic())
